@@ -149,6 +149,10 @@ CHECKS["C28"] = dict(engine="tlc+vh", level="model_checking", ref="4.16", techni
                      text="The reference acts only on the authenticated tenant's entry (checked by TLC); the real API must serve / refuse each request like the reference (status details the property does not fix are left open) and leave every other tenant's pipeline, usage counter and source exactly as the reference says.",
                      note="Trusted: warp::test drives the same filters the server mounts. Bounded: 3 tenants (two keys differing only in case), 10 endpoints, 5 credentials, sequences of 1..2 requests.")
 
+CHECKS["C29"] = dict(engine="tlc+vh", level="model_checking", ref="4.16", technique="TLA+ spec (Rbac.tla): endpoint/role table and credential/configuration semantics; TLC enumerates the full finite matrix (and checks the table's monotonicity); every cell executed against the real cluster routes via warp::test with a state digest before/after; 2048 blind wrong keys",
+                     text="Exhaustive finite matrix: each of 702 (configuration, credential, endpoint) cells must be served exactly when the reference grants the role, rejected requests must leave workers, groups, connectors and migrations unchanged; near-miss keys (transposition, compensating bit flips) and 2048 arbitrary wrong keys must be rejected.",
+                     note="Trusted: warp::test and the public handle_rejection the server installs. Bounded: 26 cluster endpoints of the default build; Raft RPC routes need the raft feature and are covered with C35-C38's harness when built.")
+
 NOT_APPLICABLE = {
     "C41": "parser totality over arbitrary strings: no state/transition system to specify; a TLA+ model would only enumerate token strings (fuzzing under another name)",
     "C43": "LSP handler robustness over arbitrary text/cursor: per-call robustness, no protocol state in the property; outside model-based verification",
